@@ -1,13 +1,5 @@
 SPECIFICATION NSpec
 CONSTANTS
-  Kind = "xsec"
-  Paths = {"p1"}
-  Mols = {"A"}
-  Modes = {"linear"}
-  Disk <- NDisk
-  ClearOnModeChange = TRUE
-  DiscoverPassesMode = TRUE
-  StoreOnLoad = TRUE
   Upper = {"H","C"}
   Lower = {"e","o"}
   Digit = {"1","2"}
